@@ -24,7 +24,7 @@ ASSUMPTIONS = ["the window holds every answer the node transmitted to that origi
 TIMEOUT = {"quick": 900, "thorough": 3600}
 SCTP_CLONES = {"quick": ['rand3'], "thorough": ['rand10', 'rand11']}
 ORIGINS = ["o1.verif.example", "o2.verif.example"]
-E2E = [0x111, 0x222, 0x333]
+E2E = [0x111, 0, 0x333]     # zero is a legal end-to-end identifier
 
 
 def request_alphabet():
